@@ -8,7 +8,8 @@ EXPLANATION = ("Decision tables of ConnectStream::run (capsule / FIN / reset -> 
                "(length guard 4..=4+1024, big-endian u32 code, reason = payload[4..] unchanged), Capsule::with_frame, Worker::run "
                "(stores exactly run_impl's error; QUIC close code), ConnectionError::with_driver_error / no_connect / "
                "From<quinn::ConnectionError>, and the six Driver waiters are extracted from MIR on every path and compared "
-               "with the reference rows.")
+               "with the reference rows; plus the EOF classification below it: GetVarint reports ImmediateFin iff no byte of the frame was consumed "
+               "(state kept in the future, not in a poll-local), later fields and the eight read_frame mappings turn a FIN inside a frame into H3 FRAME_ERROR.")
 NOT_DECIDED = ["that the event is delivered at every point of the session's life under a concrete schedule (see C05 finding F1)",
                "quinn's delivery of CONNECTION_CLOSE"]
 TRUSTED = ["rustc MIR", "u32::from_be_bytes / str::from_utf8 / slice indexing semantics (std)", "quinn::ConnectionError field meaning"]
@@ -72,6 +73,11 @@ def run(ctx):
     seq = [e for p in full for e in event_strs(p) if e.startswith("<&[u8] as BytesReader>::")]
     ctx.check("C04-R2", "Capsule::with_frame wire sequence", len(full) == 1 and len(seq) == 3 and "get_varint" in seq[0] and "get_varint" in seq[1] and "get_bytes" in seq[2],
               "Capsule::with_frame does not read [varint type, varint len, bytes len]: %s" % seq, where(fn))
+
+    ctx.rule("C04-R6", "'clean FIN' is told apart from 'FIN inside a frame' at every layer below ConnectStream::run (its table maps the two to different causes)")
+    from rules.C05 import eof_rules
+    eof_rules(ctx, "C04-R6")
+    shared.read_frame_maps(ctx, "C04-R6")
 
     ctx.rule("C04-R3", "Worker::run stores exactly run_impl's error and closes QUIC with the matching code")
     shared.worker_run_table(ctx, "C04-R3")
